@@ -27,6 +27,10 @@ TEXT = {
          "Small state space explored densely (thousands of op sequences of length <=12): Verify never before enable, enable verifies exactly the installed pointer, failure keeps the delay, callbacks withheld iff delay in force and suppress option."),
  "C20": ("rapid differential test: a transforming source with 9 mangler lists around static/watching/failing inner sources vs an unwrapped Dials fed natively, and model-based scripts of SetSource/Done on a Blank, all inside synctest bubbles",
          "Views behind the wrapper must equal the unwrapped reference and a pure model after the initial stack and every update; errors must surface; Blank's delegation/ownership rules are checked against a small reference model. Mangler lists come from a fixed menu."),
+ "C12": ("rapid property tests for both flag packages: generated struct types x template defaults x name configs x argv (subset, repeats, order, all spellings); names, advertised defaults and values by construction; result stacked between a lower and a higher layer",
+         "Flag names, default strings, set/unset pattern, accumulation of repeated collection flags and range errors are predicted by harness code that never calls dials; bounded shapes, sampled."),
+ "C15": ("rapid round-trip and range properties over every scalar type, four collection kinds and integral slices (canonical text from the flag helpers' String()), structural integer literals (bases, '_', blanks), boundary literals judged with math/big; plus coverage-guided fuzzing of the same properties (rapid.MakeFuzz) in the thorough tier",
+         "Pure functions: hundreds of thousands of generated values / literals per run; oracle is parse(canonical(v)) == v and big-integer / exact float range arithmetic independent of strconv's range handling."),
  "C19": ("rapid property tests: decode(encode(ws)) == ws for six schemes; Go identifiers assembled from words and initialisms must split into the assembly list",
          "Cheap pure functions: hundreds of thousands of generated word lists / identifiers per run against a by-construction oracle."),
 }
